@@ -118,7 +118,12 @@ func (s *Sched) Step(p *Proc) error {
 	if p.Done {
 		return fmt.Errorf("process %s already finished", p.Name)
 	}
-	p.resume <- struct{}{}
+	select {
+	case p.resume <- struct{}{}:
+	case <-time.After(s.Timeout):
+		stuckSteps.Add(1)
+		return fmt.Errorf("process %s is not waiting at its gate (%s) after %v", p.Name, p.At, s.Timeout)
+	}
 	select {
 	case a := <-p.arrive:
 		if a.done {
